@@ -222,6 +222,10 @@ func (t *ParsingTable) resolveConflict(a grammar.Terminal, actions set.Set[*Acti
 			handle = PrecedenceHandleForTerminal(a)
 		case REDUCE:
 			handle = PrecedenceHandleForProduction(action.Production)
+		default:
+			// Only SHIFT and REDUCE actions have a precedence handle.
+			// A conflict involving any other action (ACCEPT) cannot be resolved by precedence.
+			return nil, fmt.Errorf("cannot determine precedence: no handle for %s", action)
 		}
 
 		pairs = append(pairs, &ActionHandlePair{
